@@ -594,6 +594,65 @@ PROPS["C17"] = {
 }
 
 
+def ctor_cmp(o):
+    return re.sub(r" hex=(big|len16777215:\S+)", " hex=BIG", o)
+
+
+def ctor_oracle(pid, res, driver):
+    """The property itself on the implementation's observation of every accepted construction."""
+    findings = []
+    data = res.stream_data.get("CTOR")
+    if data:
+        for prof, outs in data["impl"].items():
+            for c, o in zip(data["cases"], outs):
+                t = o.split(" ")
+                verdict = t[1] if len(t) > 1 else "no-output"
+                why = None
+                if verdict in ("panic", "no-output", "hang"):
+                    why = "constructor (or an accessor used to observe it) ended in %s" % verdict
+                elif verdict == "ok":
+                    kv = dict(x.split("=", 1) for x in t[2:] if "=" in x)
+                    kind = c.split(" ")[2]
+                    if kv.get("v") != "1":
+                        why = "constructed component does not verify (v=%s)" % kv.get("v")
+                    elif kind != "QP" and kv.get("w") != kv.get("cb"):
+                        why = "count_bits=%s but serialisation gave %s" % (kv.get("cb"), kv.get("w"))
+                    elif kind != "QP" and kv.get("p") != "same":
+                        why = "parse-back: %s" % kv.get("p")
+                if why:
+                    findings.append({"case": c[:2000], "impl": o[:300], "profile": prof, "why": why})
+    return findings
+
+
+CTOR_STREAM = {"name": "CTOR", "quick": 6000, "thorough": 120000, "profiles": ["debug", "release"], "cmp": ctor_cmp,
+               "nontrivial": lambda c, o: " ok " in o or o.endswith(" err")}
+CTOR_RULE = ("CTOR: every public constructor (Residual, QuantizedParameters, Constant, Verbatim, FixedLpc, Lpc, FrameHeader, Frame, "
+             "StreamInfo, MetadataBlockData::new_unknown) on half consistent, half deliberately inconsistent arguments: parameter count "
+             "off by one, parameters 15/16/30/31/32/255, partition order 15/16/17/64 or disagreeing with the count, block size 0 / +1 / "
+             "65536 / 2^40 / 2^62 / usize::MAX, list lengths that disagree, warm-up longer than a partition or than the block, non-zero "
+             "warm-up quotient, remainder 2^15, quotients 65535/65536/100000, precision 0/16/17/32/64/2^20, shift -128..127, coefficient "
+             "count off by one, coefficients one beyond the precision, order 0/25/32/33/100, widths 0/1/7/10/26..33/255/272/264/2^32+16, "
+             "samples one beyond the width or i32::MIN/MAX, 0/32767/32768/40000/65536 verbatim samples, header block sizes over every code "
+             "class, 0, 32768, 65535, 65536, 2^32+64, channel counts 0/9/16/255, rates 0/655350/655351/10^6/2^32/2^32+44100/usize::MAX, "
+             "frame numbers up to 2^32-1, start samples up to u64::MAX, frames whose subframe count / width / block size disagree with the "
+             "header, metadata tags 0/127/128/255 and lengths 2^24-1, 2^24, 2^24+1. Observable: err / panic / ok with verify, count_bits, "
+             "bits written, bytes, parse-back identical (Debug form). Non-trivial = accepted, or rejected by the outer constructor.")
+
+PROPS["C18"] = {
+    "coq": "theories/Props/C18.v",
+    "theorems": ["C18_total", "C18_residual", "C18_qparams_verifies", "C18_subframes", "C18_frame_verifies",
+                 "C18_streaminfo_verifies", "C18_verified_subframe_serialises"],
+    "streams": [CTOR_STREAM], "rule": CTOR_RULE,
+    "oracle": ctor_oracle,
+    "assumptions": ["PARTIAL: parse-back identity and the serialisation of frames, headers, stream info and metadata are validated by the "
+                    "CTOR stream against the implementation and the parser model, not proved",
+                    "FrameHeader::new still narrows bits_per_sample to u8 and sample_rate to u32 before looking at them (264 is taken as 8); "
+                    "the result is self-consistent, so the property as stated holds; the model writes the casts out",
+                    "QuantizedParameters has no serialisation of its own; identity of Stream is observed through re-serialised bytes "
+                    "(Stream is not Debug)"],
+}
+
+
 def check_coq(pid, spec, res):
     """Build the proofs; returns True when the property's theorems are all checked."""
     closure = fv.dep_closure(spec["coq"])
